@@ -128,6 +128,8 @@ def gen_cfg(rng, max_wfs=3, max_n=4, max_total=12, dyadic=False, lam_units=True,
         nl = rng.randint(1, 3)
         layers = [{"alt": rng.choice([0.0, 4096.0, 8192.0]), "r0": float(rng.randint(1, 4)), "L0": float(rng.randint(1, 64))}
                   for _ in range(nl)]
+        if rng.random() < 0.3:
+            layers.append(dict(layers[0], r0=float(rng.choice([x for x in (1, 2, 3, 4, 8) if x != layers[0]["r0"]]))))
         for w in wfs:
             w["diam"] = rng.choice([0.25, 0.5, 1.0, 2.0])
             w["gs_alt"] = rng.choice([0.0, 0.0, 16384.0, 32768.0])
@@ -146,6 +148,10 @@ def gen_cfg(rng, max_wfs=3, max_n=4, max_total=12, dyadic=False, lam_units=True,
                        # outer scales from a few metres to several km (the near-Kolmogorov regime users ask for with a huge L0)
                        "L0": math.exp(rng.uniform(math.log(2.0), math.log(200.))) if rng.random() < 0.7
                        else math.exp(rng.uniform(math.log(200.), math.log(2e4)))})
+    if rng.random() < 0.3:
+        # two sheets of turbulence in one place: dome seeing on top of the ground layer, two layers of one altitude bin — the same
+        # altitude and outer scale, another strength (anything keyed on geometry alone sees these two layers as one)
+        layers.insert(rng.randrange(len(layers) + 1), dict(layers[0], r0=layers[0]["r0"] * rng.choice([0.37, 0.5, 2.0, 3.1])))
     unit = rng.choice([1.0, 1.0, 1.0, 1e6, 1e9]) if lam_units else 1.0     # metres, microns, nanometres
     same_d = rng.random() < 0.5
     base_n = max(len(wfs[0]["mask"]), len(wfs[0]["mask"][0]))
